@@ -22,6 +22,11 @@ pub struct SccSc {
     /// container instance
     #[serde(default)]
     pub phases: Vec<Vec<EdgeChange>>,
+    /// the container instances hold the SAME node objects (a node may be a member of several
+    /// containers at once; every instance stays alive until the end of the run), instead of a
+    /// fresh copy of the graph per instance
+    #[serde(default)]
+    pub shared_members: bool,
 }
 
 #[derive(Clone, Debug, Serialize, Deserialize, PartialEq)]
@@ -227,13 +232,25 @@ fn run<F: Flavour>(sc: &SccSc, stats: &mut Stats) -> Option<Violation> {
     crate::keys::set_style(crate::keys::style_from(sc.instances.first().map(|x| x.0).unwrap_or(0)));
     let mut orders_seen = BTreeSet::new();
     let mut result = None;
-    'inst: for (hs, order) in &sc.instances {
+    // (nodes, current edges, the earlier containers) when the instances share their members
+    #[allow(clippy::type_complexity)]
+    let mut shared: Option<(Vec<F::Node>, Vec<(usize, usize, u64)>, Vec<F::Graph>)> = None;
+    if sc.shared_members {
+        stats.inc("runs_with_members_shared_by_several_containers");
+    }
+    'inst: for (inst_no, (hs, order)) in sc.instances.iter().enumerate() {
         hashseam::set_seed(*hs);
-        let nodes: Vec<F::Node> = (0..sc.n).map(|k| F::node_new(k, NVal::new((crate::rng::mix(*hs ^ k as u64) % 4) as u32, k as u64))).collect();
-        let mut edges = sc.edges.clone();
-        for (u, v, e) in &edges {
-            F::connect(&nodes[*u], &nodes[*v], EVal::new(*e));
-        }
+        let (nodes, mut edges): (Vec<F::Node>, Vec<(usize, usize, u64)>) = match &shared {
+            Some((ns, es, _)) if sc.shared_members => (ns.clone(), es.clone()),
+            _ => {
+                let nodes: Vec<F::Node> =
+                    (0..sc.n).map(|k| F::node_new(k, NVal::new((crate::rng::mix(*hs ^ k as u64) % 4) as u32, k as u64))).collect();
+                for (u, v, e) in &sc.edges {
+                    F::connect(&nodes[*u], &nodes[*v], EVal::new(*e));
+                }
+                (nodes, sc.edges.clone())
+            }
+        };
         let mut g = F::g_new();
         for k in order {
             F::g_insert(&mut g, nodes[*k].clone());
@@ -242,7 +259,8 @@ fn run<F: Flavour>(sc: &SccSc, stats: &mut Stats) -> Option<Violation> {
             orders_seen.insert(F::g_iter(&g).iter().map(|(k, _)| *k).collect::<Vec<_>>());
         }
         let mut members: BTreeSet<usize> = (0..sc.n).collect();
-        let mut fresh = 900_000u64;
+        // (edge values stay unique also when the instances share their nodes)
+        let mut fresh = 900_000u64 + 100_000 * inst_no as u64;
         if let Some(v) = check_scc::<F>(&g, sc.n, &edges, &members, 0, stats) {
             result = Some(v);
             break;
@@ -254,12 +272,14 @@ fn run<F: Flavour>(sc: &SccSc, stats: &mut Stats) -> Option<Violation> {
                     EdgeChange::Add(u, v, e) => {
                         // the container must stay closed under neighbours
                         if members.contains(u) && members.contains(v) {
+                            let e = &(*e + 10_000_000 * inst_no as u64 * sc.shared_members as u64);
                             F::connect(&nodes[*u], &nodes[*v], EVal::new(*e));
                             edges.push((*u, *v, *e));
                         }
                     }
                     EdgeChange::TryAdd(u, v, e) => {
                         if members.contains(u) && members.contains(v) {
+                            let e = &(*e + 10_000_000 * inst_no as u64 * sc.shared_members as u64);
                             match F::try_connect(&nodes[*u], &nodes[*v], EVal::new(*e)) {
                                 Ok(()) => edges.push((*u, *v, *e)),
                                 Err(_) => stats.inc("probe_try_connect_refused_between_scc_calls"),
@@ -328,6 +348,11 @@ fn run<F: Flavour>(sc: &SccSc, stats: &mut Stats) -> Option<Violation> {
                 result = Some(v);
                 break 'inst;
             }
+        }
+        if sc.shared_members {
+            let mut kept = shared.take().map(|x| x.2).unwrap_or_default();
+            kept.push(g);
+            shared = Some((nodes, edges, kept));
         }
     }
     if orders_seen.len() > 1 {
@@ -545,6 +570,7 @@ impl Engine for Scc {
             edges,
             instances,
             phases,
+            shared_members: !huge && rng.chance(1, 6),
         }
     }
 
@@ -556,7 +582,19 @@ impl Engine for Scc {
 
     fn shrink(&self, sc: &SccSc) -> Vec<SccSc> {
         let mut out = Vec::new();
+        if sc.shared_members {
+            let mut c = sc.clone();
+            c.shared_members = false;
+            out.push(c);
+        }
         if sc.instances.len() > 1 {
+            if sc.instances.len() > 2 {
+                for i in 0..sc.instances.len() {
+                    let mut c = sc.clone();
+                    c.instances.remove(i);
+                    out.push(c);
+                }
+            }
             for i in 0..sc.instances.len() {
                 let mut c = sc.clone();
                 c.instances = vec![sc.instances[i].clone()];
@@ -629,6 +667,6 @@ impl Engine for Scc {
     }
 
     fn size(&self, sc: &SccSc) -> usize {
-        sc.edges.len() * 4 + sc.n * 2 + sc.instances.len() + sc.phases.iter().map(|p| 3 + p.len() * 3).sum::<usize>()
+        sc.edges.len() * 4 + sc.n * 2 + sc.instances.len() + sc.shared_members as usize + sc.phases.iter().map(|p| 3 + p.len() * 3).sum::<usize>()
     }
 }
